@@ -4,7 +4,10 @@ Proof      : coq/Props/C05.v over Model/GC.v (collect() call by call) and Gen/Ge
              from garbage_collector.py / transaction.py on every run (_normalize_path, the marker fallback,
              _register_inflight's marker key and payload, INFLIGHT_PATH (both copies), default timeouts, and
              append_accepts_path: the path guards Transaction.append_files applies to every file, from which
-             Proofs/GCAcceptProofs.v derives the writer-side fact "manifest entries name files under data/"); the
+             Proofs/GCAcceptProofs.v derives the writer-side fact "manifest entries name files under data/" and
+             Proofs/GCHistFSProofs.v the canonical-spelling fact normpath rel = rel; C05_history is stated over Model/GCHistFS.v, a
+             history machine on a backend with a key function `canon` (filesystem aliases "data//f" ...), posixpath.normpath abstract,
+             under the law normpath s = s -> canon s = s; C05_alias_spelling_refuted: false with the guard's normpath half erased); the
              control skeleton of collect / _load_inflight_protection / _marker_targets / _gc_prefix is pinned.
 Tie        : correspondence
                pystr    Python str methods                        vs Model/PyStr.v
@@ -26,11 +29,15 @@ Config     : every history runs under a PROCESS-WIDE CONFIGURATION drawn per cas
              DataShardLogger.set_level(DEBUG / WARNING / CRITICAL), module logger at DEBUG, library level cleared + root DEBUG,
              logging.disable(INFO), DATASHARD_VERIFY_CHECKSUMS / DATASHARD_S3_USE_CONDITIONAL_WRITES values, random event
              histories) and may be reconfigured mid-history (op "config"); the library's records are formatted and written to a
-             sink, never suppressed with logging.disable (C05_disable_masks: under it no level-guarded statement is reachable).
+             sink, never suppressed with logging.disable (Proofs/GCConfProofs.v disable_masks, a LEMMA about the model of Python's
+             logging: under it no level-guarded statement is reachable).
              Gen/GenGCLog.v (translator/gen_gclog.py) is regenerated on every run and fails closed when garbage_collector.py uses
-             its logger for anything but logging statements whose arguments only observe, or reads the environment; the gc_run
-             correspondence predicts every collection WITHOUT the configuration (C05_conf_independent). Distribution in
-             stats.process_configurations.
+             its logger for anything but logging statements whose arguments only observe, or reads the environment; a counting scan
+             of the functions of file_manager / metadata_manager / storage_backend / s3_consistency / integrity / disk_utils reachable
+             by name from the collector emits the tables GC_CONF_READS / GC_ENV_READS, which C05_conf_not_consulted states to be empty
+             (COUNTED SOURCE FACTS: no theorem says that gc_run "is independent of the configuration" -- the model has no such input;
+             the evidence is that scan plus the gc_run correspondence, which predicts every collection WITHOUT the configuration).
+             Distribution in stats.process_configurations.
 Oracle /   : implementation only (independent reader: json + fastavro + pyarrow; no model):
 search       random histories {append (3 path spellings), caller-built files appended from every directory of the table
              (data/, data/sub, metadata/manifests, metadata/inflight, metadata, .locks, other, the root, <location>/data),
@@ -60,32 +67,38 @@ from harness.lib import coqbuild, gcs3, gcsim, procconf
 from harness.lib.coqio import Nat, Some, to_coq
 
 LEVEL = "proof"
-THEOREMS = ["C05_norm_agree", "C05_gc_safe", "C05_gc_live", "C05_no_abort", "C05_history", "C05_append_commits", "C05_acceptance_regenerated",
-            "C05_conf_independent", "C05_gc_safe_any_conf", "C05_set_level_enables", "C05_disable_masks", "C05_mod_level_wins"]
+THEOREMS = ["C05_norm_agree", "C05_gc_safe", "C05_gc_live", "C05_no_abort", "C05_history", "C05_alias_spelling_refuted", "C05_append_commits",
+            "C05_acceptance_regenerated", "C05_conf_not_consulted"]
 REQ = gcsim.REQ + ["DS.Model.GCHist"]
 REQ_CONF = ["DS.Gen.GenGCLog", "DS.Model.LogConf", "DS.Model.GCConf"]
 TIMEOUT_MS = 24 * 3600 * 1000
 
 MANIFEST_ENTRY = {
     "level_text": "C05_norm_agree (every table-location string, every key under data/ or metadata/), C05_gc_safe, C05_gc_live, "
-                  "C05_no_abort, C05_history (induction over unbounded sequential histories, collections with arbitrary faults included), "
-                  "C05_append_commits and C05_acceptance_regenerated (the path guards of append_files, regenerated, imply that a manifest "
-                  "entry names a file under data/: the writer-side hypothesis of C05_gc_safe), C05_conf_independent / C05_gc_safe_any_conf (the "
-                  "collection is the same function of the store after every history of process-wide configuration events -- log levels set "
-                  "through DataShardLogger.set_level or anywhere in the logging tree, logging.disable, environment variables -- over a "
-                  "regenerated table of the collector's logging statements, each checked to observe only), C05_set_level_enables / "
-                  "C05_disable_masks / C05_mod_level_wins (which configurations enable which level) proved in Coq, for both orders of the "
+                  "C05_no_abort, C05_history (induction over unbounded sequential histories, collections with arbitrary faults included, "
+                  "over a backend with an abstract key function canon and an abstract posixpath.normpath related only by "
+                  "normpath s = s -> canon s = s), C05_alias_spelling_refuted (the same statement is false once the canonical-spelling half "
+                  "of append_files' guard is erased: witness history by vm_compute), C05_append_commits and C05_acceptance_regenerated (the "
+                  "path guards of append_files, regenerated, imply BOTH that a manifest entry names a file under data/ -- the writer-side "
+                  "hypothesis of C05_gc_safe -- and that it is spelled canonically) proved in Coq, for both orders of the "
                   "collector's preparatory phases, over a call-by-call "
                   "model of GarbageCollector.collect whose path normalisation, marker fallback, marker naming and constants are "
-                  "regenerated from the source on every run; the hand-written model is tied to the code by differential execution "
+                  "regenerated from the source on every run; C05_conf_not_consulted is a COUNTED SOURCE FACT, not a theorem about the "
+                  "collector: the regenerated tables of logger uses other than observing logging statements and of environment reads, in "
+                  "garbage_collector.py and in the functions of file_manager / metadata_manager / storage_backend / s3_consistency / "
+                  "integrity / disk_utils reachable by name from it, are empty (the model has no configuration input on the strength of "
+                  "that scan and of the differential runs; no configuration-independence theorem is claimed); the hand-written model is tied to the code by differential execution "
                   "of every collection of every generated history, each under a drawn process-wide configuration (outcome, exact deleted set, "
                   "keep sets, storage-call trace, emitted log statements); "
                   "implementation-only oracles with an independent reader search for a failing history",
-    "level_note": "trusted: Coq kernel; translator/gen_norm.py; translator/gen_gclog.py (purity of logging-statement arguments is syntactic: "
-                  "constants, names, attribute/subscript reads, f-strings, len/type; __format__/__str__ of the logged objects is assumed to observe); "
-                  "Model/LogConf.v models Logger.isEnabledFor of a module logger (validated by the 'logconf' correspondence); harness/lib/gcs3.py (in-memory S3 client under the real S3StorageBackend); wf_store (writer-side path forms: data files under data/ "
-                  "-- derived from the regenerated acceptance guard of append_files, with posixpath.normpath a parameter that the history "
-                  "machine instantiates by the identity because its store has no second spelling of a key --, "
+    "level_note": "trusted: Coq kernel; translator/gen_norm.py; translator/gen_gclog.py (lexical over garbage_collector.py; a name-based "
+                  "reachability scan over six callee modules -- third-party packages, dynamic dispatch by computed name and modules outside that "
+                  "list are NOT inspected; purity of logging-statement arguments is syntactic: "
+                  "constants, names, attribute/subscript/slice reads, f-strings, len/type (str/repr/int/float in the callee modules); __format__/__str__ of the logged objects is assumed to observe); "
+                  "that the collector's behaviour does not depend on log levels / environment is NOT a Coq theorem (the model has no such input): it rests on that scan and on the differential runs under drawn configurations; "
+                  "Model/LogConf.v models Logger.isEnabledFor of a module logger (validated by the 'logconf' correspondence; its arithmetic lemmas set_level_enables / disable_masks / mod_level_wins live in Proofs/GCConfProofs.v and are not property theorems); harness/lib/gcs3.py (in-memory S3 client under the real S3StorageBackend); wf_store (writer-side path forms: data files under data/ "
+                  "-- derived from the regenerated acceptance guard of append_files; posixpath.normpath and the backend's key function stay abstract in "
+                  "C05_history, related by the unproved law normpath s = s -> canon s = s (true of POSIX path resolution without symlinks inside data/, and of S3 where canon = id) --, "
                   "lists and manifests under metadata/, marker naming) proved invariant of the model's writers and checked on every "
                   "real directory; the table location enters the model only as the string normalize_path receives: symlinked locations "
                   "and S3 prefixes act through the backend's listing, which the harness exercises (real LocalStorageBackend, real "
